@@ -458,12 +458,8 @@ func (context *RunContext) Load() error {
 	}
 
 	if !isExist {
-		err = context.createFile()
-		if err != nil {
-			return err
-		} else {
-			return context.Flush()
-		}
+		// Flush creates the file by an atomic rename: an empty context.data is never visible
+		return context.Flush()
 	} else {
 		err := context.load()
 		if err != nil {
@@ -545,42 +541,53 @@ func (context *RunContext) encodeBody() ([]byte, error) {
 	return totalBuf, nil
 }
 
+// flush replaces context.data atomically: the new content is written to a temporary file in the
+// same directory, synced, and then renamed over context.data. A crash at any point leaves either
+// the complete old file or the complete new file; a left-over temporary file is never read and is
+// truncated by the next flush.
 func (context *RunContext) flush(headBuf, bodyBuf []byte) error {
-	file, err := os.OpenFile(context.Path, os.O_WRONLY, os.ModePerm)
-	defer file.Close()
+	tmpPath := context.Path + ".tmp"
+	file, err := os.OpenFile(tmpPath, os.O_CREATE|os.O_TRUNC|os.O_WRONLY, 0666)
 	if err != nil {
 		return err
 	}
 
-	_, err = file.Seek(0, 0)
+	write := func(buf []byte) error {
+		n, err := file.Write(buf)
+		if err != nil {
+			return err
+		}
+		if n != len(buf) {
+			panic("n != len(context data)")
+		}
+		return nil
+	}
+
+	err = write(headBuf)
+	if err == nil {
+		err = write(bodyBuf)
+	}
+	if err == nil {
+		err = file.Sync()
+	}
+	if closeErr := file.Close(); err == nil {
+		err = closeErr
+	}
 	if err != nil {
 		return err
 	}
 
-	n, err := file.Write(headBuf)
+	err = os.Rename(tmpPath, context.Path)
 	if err != nil {
 		return err
 	}
 
-	if n != len(headBuf) {
-		panic("n != len(head data)")
+	// make the rename itself durable (best effort: not every platform can sync a directory)
+	if dir, err := os.Open(filepath.Dir(context.Path)); err == nil {
+		dir.Sync()
+		dir.Close()
 	}
-
-	_, err = file.Seek(int64(len(headBuf)), 0)
-	if err != nil {
-		return err
-	}
-
-	n, err = file.Write(bodyBuf)
-	if err != nil {
-		return err
-	}
-
-	if n != len(bodyBuf) {
-		panic("n != len(body data)")
-	}
-
-	return file.Sync()
+	return nil
 }
 
 func (context *RunContext) Flush() error {
